@@ -116,6 +116,8 @@ class Walker:
         mem = env["$mem"]
         for pr in p["proj"]:
             k = pr["p"]
+            place = True         # the step builds a symbolic place (to be looked up in the path memory), not a value taken
+            #                      out of an aggregate that was computed earlier (a snapshot that later stores do not change)
             if k == "deref":
                 if cur[0] == "ref":
                     cur = cur[1]
@@ -124,12 +126,16 @@ class Walker:
             elif k == "field":
                 if cur[0] == "agg" and cur[1] in ("tuple", "adt", "closure") and pr["i"] < len(cur[4]):
                     cur = cur[4][pr["i"]]
+                    place = False
                 elif cur[0] == "bin" and cur[1].endswith("WithOverflow"):
                     cur = ("bin", cur[1][:-12], cur[2], cur[3]) if pr["i"] == 0 else ("ovf", cur[1], cur[2], cur[3])
+                    place = False
                 elif cur[0] == "variant" and cur[1][0] == "agg" and cur[1][3] == cur[2] and pr["i"] < len(cur[1][4]):
                     cur = cur[1][4][pr["i"]]
+                    place = False
                 elif cur[0] == "variant" and cur[1][0] == "try" and pr["i"] == 0:
                     cur = ("ok", cur[1][1]) if cur[2] == "Continue" else ("residual", cur[1][1])
+                    place = False
                 else:
                     cur = ("field", cur, pr["name"] or str(pr["i"]), pr["i"], pr["ty"]["s"])
             elif k == "downcast":
@@ -140,7 +146,7 @@ class Walker:
                 cur = ("index", cur, ("const", "usize", pr["offset"], str(pr["offset"]), None, None))
             else:
                 cur = ("unk", "proj:" + k)
-            if mem:
+            if mem and place:
                 key = norm(cur)
                 if key in mem:
                     cur = mem[key]
